@@ -110,7 +110,7 @@ def rt_check(verdict, b, g, desc, rep, sigprefix):
                           "%s :: %s" % (desc, "; ".join(p for _, p in probs[:3])), dict(rep, texts=[t1, t2, t3]))
 
 
-def replay(verdict, exe, res, aspects, seed=0, tag="api", pol=None, sigprefix="api"):
+def replay(verdict, exe, res, aspects, seed=0, tag="api", pol=None, sigprefix="api", extra_before=None):
     pol = pol or {"mod": "nonsec", "reset": False, "cmt": False}
     schema = res.schemas[1]
     pretoks = res.extra.get("PRETOKS", [None])[0]
@@ -123,6 +123,8 @@ def replay(verdict, exe, res, aspects, seed=0, tag="api", pol=None, sigprefix="a
         if b.get("rw2"):
             lines.append("failat rewrite2 %d" % b["rw2"])
         lines.append("init c1 S %d" % FLAGBITS["COMMENTS"])
+        if extra_before:
+            lines += extra_before
         if b.get("pre"):
             lines.append("parsebuf c1 %s" % enc(pretext))
         # every transition is the last call of its own behaviour: the path leading to its
@@ -161,7 +163,7 @@ def replay(verdict, exe, res, aspects, seed=0, tag="api", pol=None, sigprefix="a
             continue
         if "roundtrip" in aspects and b["calls"][-1]["exp"]["ret"] != "unspec":
             rt_check(verdict, b, g, desc, rep, sigprefix)
-        lines = [l for l in g["lines"] if l["cmd"] not in ("init", "parsebuf", "free", "obs", "print", "reparse")]
+        lines = [l for l in g["lines"] if l["cmd"] not in ("init", "parsebuf", "free", "obs", "print", "reparse", "searchpath")]
         if len(lines) != len(b["calls"]):
             raise ModelError("behaviour %s: %d observations for %d calls" % (bid, len(lines), len(b["calls"])))
         before = [l for l in g["lines"] if l["cmd"] == "obs"][-1]["ctx"].get("c1")
